@@ -9,7 +9,7 @@ from vp import core, gen
 
 PROP_ID = 'C11'
 LEVEL = 'exploration'
-BUDGET = {'quick': 3000, 'thorough': 60000}
+BUDGET = {'quick': 9000, 'thorough': 60000}
 RULE = ('Histories on frames with df*dt in [n-0.45, n+0.45], n = 1..10, plus exactly representable half-integers (where the '
         'statement\'s round() is read as Python\'s round-half-to-even): Hypothesis draws 1..5 ops from add_noise(chi2 | gaussian | truncated gaussian), '
         'add_noise_from_obs(own tables of 1..12 distinct entries | the shipped table, share_index on/off, three noise '
@@ -286,6 +286,10 @@ def run_history(obs, stg, fr, case, k):
                                 imin = cand
                             elif mn < float(np.min(mins)) - 1e-9:
                                 obs.fail('floor_violated:table', f'min {mn} below every table floor')
+                            elif int(np.sum(noise == mn)) >= 2:
+                                # several samples sit exactly on the minimum: they were raised to a floor, and that
+                                # floor is no entry of the floor table (ties between free Gaussian draws do not happen)
+                                obs.fail('floor_not_from_table', f'{int(np.sum(noise == mn))} samples at {mn!r}, floors {np.sort(mins)[:4].tolist()}...; share={share}')
                             else:
                                 obs.count('floor_not_attained_cases')      # tiny frame: no sample fell below its floor
                         elif np.any(noise < np.min(mins) - 1e-9):
